@@ -26,5 +26,7 @@ Init == x = 0
 Next == UNCHANGED x
 \* prefix pairs: the i-th and the j-th name of a kind become  p  and  p_count  (one user name a proper prefix of another)
 PrefixPairs == {[kind |-> k, index |-> i, to |-> "<prefix-pair>", other |-> j] : k \in {"var", "field", "fun"}, i \in 1..MaxNames, j \in 1..MaxNames}
-Emit == PrintT("@@" \o ToJson([renamings |-> {r \in Renamings : r.to \in Targets(r.kind) \/ r.kind = "all"}, prefix_pairs |-> {r \in PrefixPairs : r.index # r.other}, word_renamings |-> WordRenamings]))
+\* merge pairs (only applied to the programs of spec/MC_C15.tla whose kind starts with "sibling"): the i-th variable takes the name of the j-th
+MergePairs == {[kind |-> "var", index |-> i, to |-> "<same-as>", other |-> j] : i \in 1..7, j \in 1..7}
+Emit == PrintT("@@" \o ToJson([renamings |-> {r \in Renamings : r.to \in Targets(r.kind) \/ r.kind = "all"}, prefix_pairs |-> {r \in PrefixPairs : r.index # r.other}, word_renamings |-> WordRenamings, merge_pairs |-> {r \in MergePairs : r.index # r.other}]))
 =====================================================================================
